@@ -326,7 +326,7 @@ def Cfg.wf (cfg : Cfg) : Bool := !cfg.writes.contains "SELECT"
 
 /-- no deadline has passed when a command runs (`purge` finds nothing to drop in the database it runs on):
     the model then speaks about TTL *presence* only, never about remaining time -/
-def quietStep (c : Conn) (db now : Nat) : Bool := purge now (getDb c.store db) == getDb c.store db
+def quietStep (c : Conn) (db now : Nat) : Bool := decide (purge now (getDb c.store db) = getDb c.store db)
 
 def evDb (c : Conn) : Ev → Nat
   | .cmd _ _ _ _ => c.cur
